@@ -21,11 +21,16 @@ type faults struct {
 	remain int
 	calls  int
 	fired  string
+	rec    bool     // record every call
+	trace  []string // "Method path" per counted call
 }
 
 func (f *faults) arm(k int) { f.armed, f.remain, f.fired = true, k, "" }
 func (f *faults) hit(method, path string) bool {
 	f.calls++
+	if f.rec {
+		f.trace = append(f.trace, method+" "+path)
+	}
 	if !f.armed {
 		return false
 	}
